@@ -13,6 +13,13 @@ type parser struct {
 
 func (p *parser) peek() token { return p.toks[p.i] }
 
+func (p *parser) at(k int) token {
+	if k >= len(p.toks) {
+		return p.toks[len(p.toks)-1]
+	}
+	return p.toks[k]
+}
+
 func (p *parser) peekAt(n int) token {
 	if p.i+n >= len(p.toks) {
 		return p.toks[len(p.toks)-1]
@@ -106,7 +113,7 @@ var predefinedTypeNames = map[string]bool{
 func (p *parser) startsType() bool {
 	t := p.peek()
 	switch t.kind {
-	case tStr, tNum:
+	case tStr, tNum, tTmpl:
 		return true
 	case tIdent:
 		switch t.text {
@@ -168,18 +175,21 @@ func (p *parser) startsFuncType() bool {
 // matchClose returns the index of the token closing the bracket at index open,
 // or -1 if it is not closed before limit.
 func (p *parser) matchClose(open, limit int) int {
-	depth := 0
+	var stack []byte
 	for k := open; k < limit && k < len(p.toks); k++ {
 		t := p.toks[k]
-		if t.kind != tPunct {
+		if t.kind != tPunct || len(t.text) != 1 {
 			continue
 		}
-		switch t.text {
-		case "(", "[", "{":
-			depth++
-		case ")", "]", "}":
-			depth--
-			if depth == 0 {
+		switch c := t.text[0]; c {
+		case '(', '[', '{':
+			stack = append(stack, c)
+		case ')', ']', '}':
+			if len(stack) == 0 || stack[len(stack)-1] != map[byte]byte{')': '(', ']': '[', '}': '{'}[c] {
+				return -1
+			}
+			stack = stack[:len(stack)-1]
+			if len(stack) == 0 {
 				return k
 			}
 		}
@@ -508,6 +518,8 @@ func (p *parser) parseObjectType() Type {
 		switch {
 		case nx.is(",") || nx.is(";"):
 			p.next()
+		case nx.kind == tEOF:
+			p.fail(open, "unbalanced '{': object type is not closed")
 		case nx.is("}") || nx.nl:
 		default:
 			p.fail(nx, "expected ',', ';' or a newline between object type members, found %s", nx.describe())
@@ -741,6 +753,10 @@ func (p *parser) skipExpr(stopComma, stopNL bool) {
 				return
 			}
 		}
+		if !stopNL && depth == 0 && p.i > start && isExprEnd(p.toks[p.i-1]) &&
+			(t.kind == tNum || t.kind == tStr || t.kind == tIdent && !binaryKeywords[t.text]) {
+			p.fail(t, "unexpected %s after an expression: missing ',' or operator", t.describe())
+		}
 		if t.kind == tPunct {
 			switch t.text {
 			case "(", "[", "{":
@@ -755,3 +771,5 @@ func (p *parser) skipExpr(stopComma, stopNL bool) {
 		p.next()
 	}
 }
+
+var binaryKeywords = map[string]bool{"in": true, "instanceof": true, "as": true, "satisfies": true, "of": true}
